@@ -7,6 +7,14 @@ CONSTANTS
   Floor = 24
   Enabled = TRUE
   MaxSteps = 6
+  Fwd6Max = 56
+  Floor6 = 48
+  Allow = {}
+  Mapped = {}
+  CDs = {FALSE}
+  UpCd = {"echo"}
+  Dnssec = FALSE
+  Bug = "none"
 INIT Init
 NEXT Next
 
